@@ -62,8 +62,8 @@ def gen_cases(ctx):
         for v in vals:
             yield dict(part='response', id=i, result=v)
     # errors, alone and inside responses
-    registry = sorted(JsonRpcErrorMeta.__errors_mapping__) + [7001]
-    codes = registry + [0, 1, -1, 12345, 2 ** 63, -32001]
+    registry = sorted(STANDARD) + HARNESS_CODES
+    codes = registry + [1, -1, 12345, 2 ** 63, -32001]
     for code, msg in itertools.product(codes, ['m', '', 'é☃']):
         for d in [A] + vals:
             for base in ('JsonRpcError', 'CustomBase'):
@@ -104,9 +104,20 @@ def mk_error(e, base=JsonRpcError):
     return base(e['code'], e['message'], **kw)
 
 
+HARNESS_CODES = [7001, 0, -7]
+STANDARD = {-32700: 'ParseError', -32600: 'InvalidRequestError', -32601: 'MethodNotFoundError', -32602: 'InvalidParamsError',
+            -32603: 'InternalError', -32000: 'ServerError'}
+
+
 def expected_cls(code, base):
-    reg = JsonRpcErrorMeta.__errors_mapping__
-    return reg.get(code, base)
+    """the class registered for a code - known independently of the library's registry: the six standard classes and
+    the classes this harness defined (a class statement with a code is what registers a class)"""
+    import pjrpc.common.exceptions as exc
+    if code in STANDARD:
+        return getattr(exc, STANDARD[code])
+    if code in HARNESS_CODES:
+        return registered_error(code)
+    return base
 
 
 def norm_params(p):
@@ -313,7 +324,8 @@ RUN = dict(request=run_request, response=run_response, error=run_error, batchreq
 
 
 def run_case(case, rec):
-    registered_error(7001)
+    for c_ in HARNESS_CODES:
+        registered_error(c_)
     obs = 'ok'
     try:
         RUN[case['part']](case)
@@ -335,7 +347,8 @@ def run_case(case, rec):
 
 
 def run(ctx):
-    registered_error(7001)
+    for c_ in HARNESS_CODES:
+        registered_error(c_)
     ctx.rule = ('E1: JSON value alphabet of %d base values closed once under [v], [v,w], {"k":v}, {"a":v,"b":w} (%d values) '
                 'as params / result / error data; ids %r; methods %r; every registered code plus unregistered ones x '
                 'messages x data, deserialised with the default and with a custom base class; batches = all ordered '
